@@ -615,11 +615,11 @@ def smp_cnt(prog: Program, res: Result) -> None:
     desc = "sampled nonzero values are gathered with the same index as their subscripts"
     idx = {}
     for a in ast.walk(fi.node):
-        if isinstance(a, ast.Assign) and isinstance(a.targets[0], ast.Name) and isinstance(a.value, ast.Subscript):
-            b = a.value.value
-            if isinstance(b, ast.Attribute) and b.attr in ("subs", "vals"):
-                first = a.value.slice.elts[0] if isinstance(a.value.slice, ast.Tuple) else a.value.slice
-                idx[b.attr] = ast.unparse(first)
+        # data.subs[rows, :] / data.vals[rows] wherever they are gathered (assigned to a local or returned directly)
+        if isinstance(a, ast.Subscript) and isinstance(a.ctx, ast.Load) and isinstance(a.value, ast.Attribute) and a.value.attr in ("subs", "vals"):
+            first = a.slice.elts[0] if isinstance(a.slice, ast.Tuple) else a.slice
+            if not isinstance(first, ast.Slice):
+                idx.setdefault(a.value.attr, fi.rtext(first))
     if set(idx) == {"subs", "vals"}:
         if idx["subs"] == idx["vals"]:
             res.ok("SMP-val", fi.short, desc, prog.loc(fi), f"both indexed by {idx['subs']}")
